@@ -317,10 +317,10 @@ static void judge_model(vh_ctx *c, const gcase *gp, size_t nlv)
       for (j = 0; j < p; j++) { size_t r; for (r = 0; r < ny; r++) { ld sdot = 0; for (i = 0; i < n; i++) sdot += LM(E, i, j) * (LM(g.Yp, i, r) - LM(FIT, i, r)); ef += sdot * sdot; } }
       ef = sqrtl(ef);
       vh_obs("null_latent_variables", 1);
-      if (en > 0 && fn > 0) vh_max("max_covariance_left_at_null_lv_rel", (double)(ef / (en * fn)));
       /* a deflated block that is itself rounding residue (response already reproduced to 1e-9 of its data scale, X used up) has no direction */
       if (fn <= 1e-9L * SYP || en <= 1e-9L * SX) vh_obs("null_latent_variables_block_exhausted", 1);
-      else if (ef > 1e-6L * en * fn && !(k > 0 && tn[k - 1] == 0))      /* reported once: the following ones are null for the same reason */
+      else vh_max("max_covariance_left_at_null_lv_rel", (double)(ef / (en * fn)));
+      if (fn > 1e-9L * SYP && en > 1e-9L * SX && ef > 1e-6L * en * fn && !(k > 0 && tn[k - 1] == 0))      /* reported once: the following ones are null for the same reason */
         vh_fail(c, "PLS|null-component-with-covariance-left", "LV %zu of %zu (rank %zu) is null although |E'F| = %.3Lg with |E| = %.3Lg |F| = %.3Lg (ratio %.3Lg): some response can still be modelled",
                 k + 1, nlv, p, ef, en, fn, ef / (en * fn));
       goto recalc;
